@@ -139,6 +139,8 @@ def _biterr_strategy(tier):
     # second operand: a xor mask (few bits / any), stays in [0, 2^bits)
     masks = {b: _mask(b) for b in allbits}
     bools = st.booleans()
+    mixed = st.integers(0, 3).map(lambda v: v == 0)
+    dtypes_b = st.sampled_from(sorted(DTYPE_BITS))
     axes = {k: st.integers(0, k - 1) for k in (1, 2, 3)}
 
     @st.composite
@@ -151,13 +153,24 @@ def _biterr_strategy(tier):
         for s in shape:
             n *= s
         a = [draw(ints[bits]) for _ in range(n)]
-        d = [draw(masks[bits]) for _ in range(n)]
-        b = [x ^ y for x, y in zip(a, d)]
+        # the two index arrays need not have the same integer dtype: in a
+        # quarter of the array cases the second operand gets another dtype
+        # (only pairs numpy can xor as integers; values fit their own dtype)
+        dtype_b = dtype
+        bits_b = bits
+        if kind == "array" and draw(mixed):
+            dtype_b = draw(dtypes_b)
+            if np.result_type(getattr(np, dtype),
+                              getattr(np, dtype_b)).kind not in "iu":
+                dtype_b = dtype
+            bits_b = min(DTYPE_BITS[dtype_b], draw(bitcls))
+        d = [draw(masks[bits_b]) for _ in range(n)]
+        b = [(x & (2 ** bits_b - 1)) ^ y for x, y in zip(a, d)]
         axis = None
         if kind == "array" and draw(bools):
             axis = draw(axes[len(shape)])
-        return dict(part="biterr", kind=kind, dtype=dtype, shape=shape,
-                    a=a, b=b, axis=axis)
+        return dict(part="biterr", kind=kind, dtype=dtype, dtype_b=dtype_b,
+                    shape=shape, a=a, b=b, axis=axis)
     return build()
 
 
@@ -497,10 +510,14 @@ def _check_biterr(case, ctx):
     ctx.nontrivial(any(v >= 2 ** 16 for v in a + b))
 
     ham = [_popcount(x ^ y) for x, y in zip(a, b)]
+    dtype_b = case.get("dtype_b", dtype)
+    if dtype_b != dtype:
+        ctx.label("biterr:mixed_dtypes")
+        tags["dtype_b"] = dtype_b
     res = count_bit_errors(_hold(a, kind, dtype, shape),
-                           _hold(b, kind, dtype, shape)) if axis is None \
+                           _hold(b, kind, dtype_b, shape)) if axis is None \
         else count_bit_errors(_hold(a, kind, dtype, shape),
-                              _hold(b, kind, dtype, shape), axis)
+                              _hold(b, kind, dtype_b, shape), axis)
     if axis is None:
         if np.ndim(res) != 0:
             raise Violation("biterr_shape", "result of shape %r without axis"
